@@ -22,6 +22,11 @@ What is run
     lazy, iter_errors) x payload x role (XMLResource, XMLSchema, schema.decode) x mode.  For a seekable source the
     initial state must be irrelevant; for every source the parser must start where the scan started.  Model:
     Model/OpenFlow.lean (driver op `open_flow`: where the scan starts, where the parser starts, refusal).
+(2c) file-like sources that DECLARE a URL (`url` attribute): addinfourl (seekable / not), io.BufferedIOBase / RawIOBase /
+    BufferedReader / TextIOBase objects carrying .url, plain duck-typed objects; with and without a custom opener; the
+    content reachable at the declared URL (stub opener, file URL, or nothing) DIFFERS from the content of the stream
+    in both directions.  The document is the content of the stream; the declared URL is never fetched by open().
+    Model: OpenFlow.Given / scanInput (driver op `given`).
 (3) schema builds: seeded random trees of schema documents (include / import, local files and stub URLs,
     payloads from the grammar); the real sequence of open / scan / parse / failure events of every resource is
     recorded and compared with the model's `build`.
@@ -932,6 +937,7 @@ def explore(ctx: Ctx, drv: Optional[Driver], full: bool) -> None:
                     ctx.mismatch('position of the reader after the scan / length of its buffer', case, impl, m)
         grammar_family(ctx, drv, R, full)
         initial_states(ctx, drv, R, mats, full)
+        declared_urls(ctx, drv, R, mats, full)
         build_traces(ctx, drv, R, full)
         if drv is not None:
             witnesses(ctx, drv)
@@ -1506,6 +1512,195 @@ def state_compare(ctx: Ctx, drv: Optional[Driver], reqs: list, pend: list) -> No
 
 
 # ----------------------------------------------------------------------------------------------
+# (2c) file-like sources that DECLARE a URL (`url` attribute) whose content differs from the stream
+# ----------------------------------------------------------------------------------------------
+class Duck:
+    """a plain duck-typed file object (outside the io class hierarchy), what a hand-made response wrapper is"""
+
+    def __init__(self, data: bytes, seekable: bool):
+        self._b, self._sk, self.closed = io.BytesIO(data), seekable, False
+
+    def read(self, n=-1):
+        return self._b.read(-1 if n is None else n)
+
+    def seekable(self):
+        return self._sk
+
+    def tell(self):
+        return self._b.tell()
+
+    def seek(self, pos, whence=0):
+        if not self._sk:
+            raise io.UnsupportedOperation('seek')
+        return self._b.seek(pos, whence)
+
+    def close(self):
+        self.closed = True
+
+
+class UrlBufReader(io.BufferedReader):
+    """an io.BufferedReader that carries a `url` attribute"""
+
+
+# kind -> (seekable, io kind open() sees)
+URL_STREAMS = {'addinfourl-seekable': (True, 'other'), 'addinfourl-ns': (False, 'other'), 'nsbuf': (False, 'buffered'),
+               'nsraw': (False, 'raw'), 'bufreader': (True, 'buffered'), 'nsbufreader': (False, 'buffered'),
+               'text-seekable': (True, 'text'), 'nstext': (False, 'text'), 'duck-seekable': (True, 'other'),
+               'duck-ns': (False, 'other')}
+
+
+def url_stream(kind: str, x: Mat, url: Optional[str]) -> Any:
+    data = x.data
+    if kind.startswith('addinfourl'):
+        inner = io.BytesIO(data) if kind.endswith('seekable') else NSBuf(data)
+        fp = urllib.response.addinfourl(inner, Message(), url or '', 200)
+        if url is None:
+            del fp.url
+        return fp
+    fp = {'nsbuf': lambda: NSBuf(data), 'nsraw': lambda: NSRaw(data), 'bufreader': lambda: UrlBufReader(io.BytesIO(data)),
+          'nsbufreader': lambda: UrlBufReader(NSRaw(data)), 'text-seekable': lambda: PosText(x.text, True),
+          'nstext': lambda: PosText(x.text, False), 'duck-seekable': lambda: Duck(data, True),
+          'duck-ns': lambda: Duck(data, False)}[kind]()
+    if url is not None:
+        fp.url = url
+    return fp
+
+
+def run_declared(R: str, role: str, kind: str, x: Mat, url: Optional[str], use_opener: bool, mode: str) -> dict:
+    from xmlschema import XMLResource, XMLSchema10
+    from xmlschema.exceptions import XMLResourceForbidden, XMLResourceOSError, XMLSchemaException
+    fp = url_stream(kind, x, url)
+    kw: dict[str, Any] = {'defuse': mode}
+    if use_opener:
+        kw['opener'] = STUB_OPENER
+    if role == 'decode':
+        aux_schema(mode)
+    out: dict[str, Any] = {'outcome': 'parsed', 'tree': None, 'exc': None}
+    Obs.opens, Obs.served, Obs.defuse_calls, Obs.seeks = [], [], [], []
+    Obs.resolver, Obs.requests, Obs.net = [], [], []
+    with warnings.catch_warnings():
+        warnings.simplefilter('ignore')
+        Obs.active = True
+        try:
+            if role == 'instance':
+                out['tree'] = canon_tree(XMLResource(fp, **kw).root)
+            elif role == 'schema':
+                schema = XMLSchema10(fp, **kw)
+                out['tree'] = ','.join(sorted(k for k in schema.maps.elements if not k.startswith('{' + XS)))
+            else:
+                sch = aux_schema(mode)
+                res = XMLResource(fp, **kw)
+                out['tree'] = repr(sch.decode(res, validation='lax')[0])
+        except XMLResourceForbidden as e:
+            out['outcome'], out['exc'] = 'forbidden', type(e).__name__
+        except XMLResourceOSError as e:
+            out['outcome'], out['exc'], out['msg'] = 'oserror', type(e).__name__, str(e)[:80]
+        except (XMLSchemaException, ET.ParseError, OSError, UnicodeError) as e:
+            out['outcome'], out['exc'], out['msg'] = 'parsed', type(e).__name__, str(e)[:80]
+        except Exception as e:          # noqa
+            out['outcome'], out['exc'], out['msg'] = 'FOREIGN', type(e).__name__, str(e)[:80]
+        finally:
+            Obs.active = False
+    out['defuse_calls'], out['seeks'] = list(Obs.defuse_calls), list(Obs.seeks)
+    out['served'] = list(Obs.served)
+    out['opens'] = [p for p in Obs.opens if p.endswith('declared.xml')]
+    out['resolver'], out['net'] = list(Obs.resolver), list(Obs.net)
+    return out
+
+
+def declared_case(ctx: Ctx, R: str, case: dict, xs: Mat, reqs: Optional[list], pend: Optional[list]) -> None:
+    """one file-like source declaring a URL.  Direct reading of the property: the document is the CONTENT OF THE
+    STREAM -- refused iff that declares an entity / external subset, parsed to the same tree as without defusing
+    otherwise -- and the URL the object declares is never fetched by open()."""
+    kind, role, mode, use_opener = case['stream'], case['role'], case['mode'], case['opener']
+    url = case['declared']
+    seekable, kind_io = URL_STREAMS[kind]
+    does_apply = applies(mode, None)
+    out = run_declared(R, role, kind, xs, url, use_opener, mode)
+    det = {k: out.get(k) for k in ('outcome', 'exc', 'msg', 'served', 'opens')}
+    det['tree'] = (out.get('tree') or '')[:200]
+    refusing = not seekable and kind_io == 'other'           # open() cannot defuse it at all (plan_refuse_iff)
+    ctx.case(case, url is not None, tag='declared-url')
+    ctx.count('declared:stream:' + kind)
+    ctx.count('declared:outcome:' + out['outcome'])
+    if out['outcome'] == 'FOREIGN':
+        ctx.failure('a non-library exception escaped', case, det)
+    if does_apply:
+        fetched = [u for u in out['served'] if url and u == url] + out['opens']
+        if fetched:
+            ctx.failure('open() fetched the URL that a given file-like source declares (the scan must be fed the '
+                        'stream itself)', case, det)
+        if out.get('tree') and MARK in out['tree']:
+            ctx.failure('an entity was expanded although defusing applies', case, det)
+        if out['resolver'] or out['net']:
+            ctx.failure('the external-entity resolver / opener trap fired although defusing applies', case, det)
+        if xs.refuse:
+            ok = out['outcome'] in ('forbidden', 'oserror') if refusing else out['outcome'] == 'forbidden'
+            if not ok:
+                ctx.failure('defusing applies and the stream declares an entity / external subset, but it was not '
+                            'refused with XMLResourceForbidden', case, det)
+        elif not refusing:
+            ref = run_declared(R, role, kind, xs, url, use_opener, 'never')
+            if out['outcome'] != ref['outcome'] or out.get('tree') != ref.get('tree'):
+                det['undefused'] = {'outcome': ref['outcome'], 'tree': (ref.get('tree') or '')[:200]}
+                ctx.failure('a stream without entity declarations is not parsed to the same tree as without defusing',
+                            case, det)
+    if reqs is not None:
+        plan = observed_plan(out, 'instance')
+        reqs.append({'op': 'given', 'variant': detect_variant(), 'mode': mode, 'base': 'absent', 'seekable': seekable,
+                     'io': kind_io, 'opener': use_opener, 'declared': url is not None, 'hex': xs.data[:64].hex()})
+        pend.append((case, {'plan': plan}))
+
+
+DECL_PAIRS = [('internal', 'plain'), ('plain', 'internal'), ('extdtd-system', 'plain'), ('plain', 'extdtd-system'),
+              ('unparsed', 'xmldecl'), ('internal', 'internal'), ('plain', 'plain'), ('internal', None)]
+
+
+def declared_urls(ctx: Ctx, drv: Optional[Driver], R: str, mats: dict, full: bool) -> None:
+    reqs: list = []
+    pend: list = []
+    n = 0
+    for stream_pay, url_pay in DECL_PAIRS:
+        for kind in URL_STREAMS:
+            for use_opener in (False, True):
+                for where in ('http', 'file', 'none'):
+                    n += 1
+                    if where == 'none' and url_pay is not None and not full and n % 4:
+                        continue
+                    role = ['instance', 'schema', 'instance', 'decode'][n % 4]
+                    dk = 'schema' if role == 'schema' else 'instance'
+                    xs = mats[(stream_pay, dk, 'utf-8')]
+                    mode = 'always' if n % 6 else MODES[n % 4]
+                    url = None
+                    if where != 'none':
+                        body = mats[(url_pay, dk, 'utf-8')].data if url_pay is not None else None
+                        if where == 'http':
+                            url = HOST + '/declared.xml'
+                            if body is None:
+                                Obs.table.pop('/declared.xml', None)
+                            else:
+                                Obs.table['/declared.xml'] = body
+                        else:
+                            url = 'file://' + R + '/declared.xml'
+                            if body is None:
+                                if os.path.exists(os.path.join(R, 'declared.xml')):
+                                    os.remove(os.path.join(R, 'declared.xml'))
+                            else:
+                                with open(os.path.join(R, 'declared.xml'), 'wb') as f:
+                                    f.write(body)
+                    case = {'declared': url, 'at-url': url_pay, 'stream': kind, 'payload': stream_pay, 'role': role,
+                            'mode': mode, 'opener': use_opener, 'refuse': xs.refuse}
+                    declared_case(ctx, R, case, xs, reqs if drv is not None else None, pend)
+    if drv is not None:
+        for (case, impl), m in zip(pend, drv.query(reqs)):
+            ctx.traces += 1
+            if 'err' in m:
+                ctx.mismatch('driver error (given)', case, impl, m)
+            elif m['plan'] != impl['plan'] or (m['scans'] and not m['scans_stream']):
+                ctx.mismatch('way open() defuses a file-like source that declares a URL vs the model', case, impl, m)
+
+
+# ----------------------------------------------------------------------------------------------
 # (3) schema builds
 # ----------------------------------------------------------------------------------------------
 def build_payloads(R: str) -> list[tuple[str, dict]]:
@@ -1893,6 +2088,28 @@ def replay(ctx: Ctx, obj: dict) -> int:
             print('REAL CODE:', det)
             if drv is not None:
                 print('MODEL    :', drv.query([req])[0])
+        elif 'declared' in case:
+            P_ = {q['name']: q for q in payloads(R, BIG)}
+            dk = 'schema' if case['role'] == 'schema' else 'instance'
+            names = [case['payload']] + ([case['at-url']] if case.get('at-url') else [])
+            ms = materialise(ctx, drv, [payload_ast(P_[n_], dk, 'utf-8') for n_ in names], [body_of(P_[n_], dk) for n_ in names],
+                             ['utf-8'] * len(names), 'replay')
+            url = case['declared']
+            if url is not None:
+                url = (HOST + '/declared.xml') if url.startswith('http') else 'file://' + R + '/declared.xml'
+                if len(ms) > 1:
+                    Obs.table['/declared.xml'] = ms[1].data
+                    with open(os.path.join(R, 'declared.xml'), 'wb') as f:
+                        f.write(ms[1].data)
+            c2 = dict(case, declared=url)
+            print('STREAM   :', ms[0].data[:200], '| kind', case['stream'], '| opener', case['opener'])
+            print('AT URL   :', url, ms[1].data[:200] if len(ms) > 1 else None)
+            reqs, pend = [], []
+            declared_case(ctx, R, c2, ms[0], reqs, pend)
+            o_ = run_declared(R, case['role'], case['stream'], ms[0], url, case['opener'], case['mode'])
+            print('REAL CODE:', {k: o_.get(k) for k in ('outcome', 'exc', 'served', 'opens', 'defuse_calls')}, (o_.get('tree') or '')[:120])
+            if drv is not None:
+                print('MODEL    :', drv.query(reqs)[0])
         elif 'state' in case:
             p = [q for q in payloads(R, BIG) if q['name'] == case['payload']][0]
             role, kind = case['role'], case['stream']
